@@ -171,6 +171,10 @@ def main():
         for p, h in zip(pairs, hist):
             for op in h:
                 p.step(op)
+        for p in pairs:
+            p.step(('list', [('2', 'x-nest', 'inner')], False))
+        for p in pairs:
+            p.step(('list', [('2', 'x-nest', 'outer-a'), ('2', 'x-nest', 'outer-b')], False))
     elif mode == 'reversed':
         for p, h in reversed(list(zip(pairs, hist))):
             for op in h:
@@ -184,6 +188,33 @@ def main():
                 if k < len(h):
                     p.step(h[k]); more = True
             k += 1
+    if mode not in ('isolated', 'warm'):
+        # overlapping use: while pair k's encode() is consuming its (lazy) header iterable, pair k+1 encodes a block
+        order = list(reversed(range(len(pairs)))) if mode == 'reversed' else list(range(len(pairs)))
+        inner_done = set()
+        def lazy(k):
+            yield ('x-nest', 'outer-a')
+            j = order[(order.index(k) + 1) % len(order)]
+            if j not in inner_done:
+                inner_done.add(j)
+                pairs[j].step(('list', [('2', 'x-nest', 'inner')], False))
+            yield ('x-nest', 'outer-b')
+        # every pair's own history must read: inner block first, then outer block — arrange that for all pairs
+        first = order[0]
+        inner_done.add(first)
+        pairs[first].step(('list', [('2', 'x-nest', 'inner')], False))
+        for k in order:
+            p = pairs[k]
+            try:
+                out = p.e.encode(lazy(k), huffman=False)
+                p.rec(('block', bytes(out).hex()))
+                RECV[:] = out
+                got = p.d.decode(RECV, raw=True)
+                p.rec(('decoded', [(bytes(a).hex(), bytes(b).hex(), type(h).__name__) for h in got for a, b in [h]]))
+                p.rec(('tables', [(bytes(a).hex(), bytes(b).hex()) for a, b in p.e.header_table.dynamic_entries],
+                       p.e.header_table_size, p.d.header_table_size))
+            except Exception as ex:
+                p.rec(('exception', type(ex).__name__))
     after = static_digest()
     print(json.dumps({'transcripts': [p.log.hexdigest() for p in pairs], 'static_before': before, 'static_after': after,
                       'n_ops': sum(p.n for p in pairs)}))
